@@ -44,6 +44,11 @@ func (s *SortedCache) PopLast() (max []byte, ok bool) {
 	return max, ok
 }
 
+// PeekLast returns the greatest value in the cache.
+func (s *SortedCache) PeekLast() (max []byte, ok bool) {
+	return s.tree.Max()
+}
+
 func (s *SortedCache) Peek() (min []byte, ok bool) {
 	return s.tree.Min()
 }
